@@ -48,11 +48,11 @@ def _history():
         'vlat': st.sampled_from(['0', '0', '1ms', 'life-1', 'life', 'life+20']),
         'verdict': st.sampled_from([True, True, False])})
     data = st.one_of(
-        st.fixed_dictionaries({'op': st.just('data'), 'name': nm, 'mode': st.sampled_from(['await', 'task'])}),
+        st.fixed_dictionaries({'op': st.just('data'), 'name': nm, 'mode': st.sampled_from(['await', 'task', 'lp'])}),
         st.fixed_dictionaries({'op': st.just('data'), 'of': st.integers(0, 7), 'ext': st.lists(st.sampled_from(ALPHA[:2]), max_size=1),
                                'mode': st.sampled_from(['await', 'task'])}),
         st.fixed_dictionaries({'op': st.just('data'), 'of': st.integers(0, 7), 'ext': st.just([]),
-                               'mode': st.sampled_from(['await', 'task'])}))
+                               'mode': st.sampled_from(['await', 'task', 'lp'])}))
     nack = st.fixed_dictionaries({'op': st.just('nack'), 'i': st.integers(0, 7), 'reason': st.sampled_from([0, 50, 100, 150]),
                                   'mode': st.sampled_from(['await', 'task'])})
     adv = st.one_of(
@@ -114,7 +114,10 @@ def _templates(express, op):
 
 
 def _case(frontend):
-    return st.fixed_dictionaries({'frontend': st.just(frontend), 'ops': _history()})
+    second = st.one_of(st.none(), st.none(),
+                       st.fixed_dictionaries({'name': st.lists(st.sampled_from(ALPHA[:2]), min_size=1, max_size=2),
+                                              'life': st.sampled_from([50, 4000])}))
+    return st.fixed_dictionaries({'frontend': st.just(frontend), 'ops': _history(), 'second_app': second})
 
 
 # ---- run + model -------------------------------------------------------------------------------------------------
@@ -126,9 +129,32 @@ def run_case(case):
     r = Result()
     fe = case['frontend']
     sim = AppSim(fe)
+    sim2 = None
     try:
+        if case.get('second_app'):
+            # a second, independent application instance of the same front-end in the same process / loop:
+            # nothing is ever delivered to it, so its Interest can only time out, at its own deadline
+            sim2 = AppSim(fe, vl=sim.vl)
+            sim2.start()
+            h2 = sim2.express(_name(case['second_app']['name']), lifetime=case['second_app']['life'], can_be_prefix=True,
+                              vlat=0.0, verdict=_verdict(fe, True))
         _run(sim, fe, case['ops'], r)
+        if sim2 is not None and not r.violations:
+            sim.vl.advance(5.0)
+            lab = _outcome_label(h2)
+            d2 = h2.t0_ms + case['second_app']['life']
+            if lab != 'exc:InterestTimeout' or h2.done_ms is None or abs(h2.done_ms - d2) > 2:
+                r.bad(f'C03/{fe}/second-instance-affected/{lab}',
+                      f'Interest of an independent app instance ended {lab} at {h2.done_ms} (deadline {d2}); nothing was delivered to it')
+            err = sim2.finish()
+            if err:
+                r.bad(f'C03/{fe}/second-instance-main-loop', err)
     finally:
+        if sim2 is not None:
+            try:
+                sim2.finish()
+            except Exception:
+                pass
         sim.close()
     return r
 
@@ -188,7 +214,10 @@ def _run(sim, fe, ops, r):
                 continue
             w = data_for(lst)
             events.append((sim.vl.now_ms(), 'data', (lst, w)))
-            sim.deliver(w, op['mode'])
+            if op['mode'] == 'lp':
+                sim.deliver(net.lp_wrap(w, extra=[(0x0340, b'\x01')]), 'task')    # inside a link-layer envelope
+            else:
+                sim.deliver(w, op['mode'])
             trace.append('D')
         elif k == 'nack':
             if not ents or not alive:
